@@ -23,6 +23,9 @@ Drop(s, n) == SubSeq(s, n + 1, Len(s))
 RECURSIVE SumSeq(_)
 SumSeq(s) == IF s = <<>> THEN 0 ELSE Head(s) + SumSeq(Tail(s))
 
+RECURSIVE ConcatSeq(_)
+ConcatSeq(ws) == IF ws = <<>> THEN "" ELSE Head(ws) \o ConcatSeq(Tail(ws))
+
 -----------------------------------------------------------------------------
 (* Wrappers *)
 (*                                                                         *)
@@ -80,7 +83,7 @@ Apply(st, op, fired) ==
     [] op.op = "wrap"     -> DoWrap(st, op)
     [] op.op = "decor"    -> DoDecor(st, op)
     [] op.op = "htmlopts" -> DoHtmlOpts(st, op)
-    [] op.op = "render"   -> DoRender(st, op, fired)
+    [] op.op \in {"render", "faultsweep"} -> DoRender(st, op, fired)
     [] OTHER -> ApplyCore(st, op, fired)
 
 -----------------------------------------------------------------------------
@@ -450,10 +453,80 @@ MdWriteCount(st, t) ==
   IN line(Len(T.hdr)) + line(T.ncols) + SumSeq(SeqMap(LAMBDA r : line(Len(st.row[r].cells)), BodyRowIds(st, T)))
 
 -----------------------------------------------------------------------------
-(* Model-level refinement checks of the emitters against the declarative parts *)
+(* Writer faults (C15) *)
+(*                                                                         *)
+(* A render is a sequence of Write calls w[1..m]; each write site either   *)
+(* checks the result (ck[i]) or ignores it.  The destination follows a     *)
+(* script: "from" k (every call >= k fails), "only" k (call k fails, later *)
+(* calls succeed), "partial" k (call k accepts half and fails).            *)
 
-RECURSIVE ConcatSeq(_)
-ConcatSeq(ws) == IF ws = <<>> THEN "" ELSE Head(ws) \o ConcatSeq(Tail(ws))
+RECURSIVE RunWrites(_, _, _, _, _, _)
+RunWrites(ws, ck, k, mode, i, acc) ==
+  IF i > Len(ws) THEN [err |-> FALSE, acc |-> acc]
+  ELSE LET fails == (mode = "from" /\ i >= k) \/ (mode \in {"only", "partial"} /\ i = k)
+           taken == IF ~fails THEN ws[i]
+                    ELSE IF mode = "partial" THEN SubSeq(ws[i], 1, Len(ws[i]) \div 2) ELSE ""
+       IN IF fails /\ ck[i] THEN [err |-> TRUE, acc |-> acc \o taken]
+          ELSE RunWrites(ws, ck, k, mode, i + 1, acc \o taken)
+
+\* C15 on a write sequence: for every k and mode, an error is returned and what
+\* the writer accepted is a prefix of the fault-free output
+WritesOK(ws, ck) ==
+  LET all == ConcatSeq(ws) IN
+  \A k \in 1..Len(ws) : \A mode \in {"from", "only", "partial"} :
+     LET r == RunWrites(ws, ck, k, mode, 1, "") IN r.err /\ StartsWith(all, r.acc)
+
+\* implementation-shaped write sequences
+TextWrites(st, t, dec) ==
+  LET T == st.tbl[t]
+      boxed == EmitText(st, t, dec)
+  IN IF dec.boxless = 0 THEN [i \in DOMAIN boxed |-> boxed[i][1] \o "\n"]
+     ELSE \* the boxless decoration still performs its (zero-length) rule writes
+          LET content(cells) == [j \in 1..RowH(cells, T.ncols) |-> "c\n"] IN
+          << "" >> \o (IF T.hdrp THEN content(T.hdr) \o << "" >> ELSE <<>>)
+          \o Flatten([k \in 1..Len(T.rows) |-> IF st.row[T.rows[k]].sep THEN << "" >> ELSE content(st.row[T.rows[k]].cells)])
+          \o << "" >>
+
+MdRowWrites(txts, n) ==
+  LET mx == Len(txts) IN
+  << "| " >> \o [i \in 1..Max2(mx - 1, 0) |-> "c | "] \o << "c |" >> \o [i \in 1..(n - Max2(mx, 1)) |-> " |"] \o << "\n" >>
+
+MdWrites(st, t) ==
+  LET T == st.tbl[t] IN
+  MdRowWrites(CellTexts(T.hdr), T.ncols) \o MdRowWrites([i \in 1..T.ncols |-> "-"], T.ncols)
+  \o Flatten(SeqMap(LAMBDA r : MdRowWrites(CellTexts(st.row[r].cells), T.ncols), BodyRowIds(st, T)))
+
+JsonWrites(st, t) ==
+  LET T == st.tbl[t]
+      obj(cells) == IF Len(cells) = 0 THEN << "{}" >>
+                    ELSE Flatten([i \in DOMAIN cells |-> << IF i = 1 THEN "{" ELSE ", ", "k: ", "v" >>]) \o << "}" >>
+      RECURSIVE Go(_, _)
+      Go(k, need) ==
+        IF k > Len(T.rows) THEN << "\n]\n" >>
+        ELSE IF st.row[T.rows[k]].sep THEN (IF need THEN << ",\n" >> ELSE <<>>) \o << "\n" >> \o Go(k + 1, FALSE)
+        ELSE (IF need THEN << ",\n" >> ELSE <<>>) \o obj(st.row[T.rows[k]].cells)
+             \o Go(k + 1, \E j \in (k + 1)..Len(T.rows) : ~st.row[T.rows[j]].sep)
+  IN << "[\n" >> \o Go(1, FALSE)
+
+AllChecked(ws) == [i \in DOMAIN ws |-> TRUE]
+
+WriterOK(st, t, fmt, dec) ==
+  LET T == st.tbl[t]
+      ws == CASE fmt = "csv" -> CsvWrites(st, t)
+              [] fmt = "md" -> IF T.hdrp /\ T.ncols > 0 THEN MdWrites(st, t) ELSE <<>>
+              [] fmt = "json" -> IF JsonErrorCase(st, T) THEN <<>> ELSE JsonWrites(st, t)
+              [] fmt = "text" -> IF T.ncols > 0 THEN TextWrites(st, t, dec) ELSE <<>>
+              [] OTHER -> <<>>
+  IN WritesOK(ws, AllChecked(ws))
+
+FaultsBad(res) ==
+  LET f == res.faults IN
+  {f.runs[i] : i \in {k \in DOMAIN f.runs : ~(f.runs[k][3] = 1 /\ f.runs[k][4] = 0 /\ f.runs[k][5] = 1)}}
+  \cup (IF Len(f.runs) # 3 * f.m THEN {<<"run count">>} ELSE {})
+  \cup (IF f.refpanic # "" THEN {<<"panic in the fault-free run">>} ELSE {})
+
+-----------------------------------------------------------------------------
+(* Model-level refinement checks of the emitters against the declarative parts *)
 
 EmitOK(st, t, fmt) ==
   LET T == st.tbl[t] IN
@@ -498,6 +571,7 @@ BadResMore(s, ns, op, res) ==
        \* the wrapper renders with the decoration that was last set on it
        \cup (IF "dec" \in DOMAIN res /\ "w" \in DOMAIN op /\ res.dec # s.wr[op.w].dec THEN {"res.dec"} ELSE {})
   ELSE IF op.op = "renderall" THEN (IF AllBad(res) # {} THEN {"out.all"} ELSE {})
+  ELSE IF op.op = "faultsweep" THEN (IF FaultsBad(res) # {} THEN {"res.faults"} ELSE {})
   ELSE {}
 
 \* result of the call itself (op-specific observations): the set of failing parts
@@ -528,5 +602,6 @@ ExplainMore(s, ns, op, f, res) ==
   ELSE IF f = "out.html" THEN HtmlBad(ns, RenderTbl(s, op), RenderHtml(s, op), res)
   ELSE IF f = "out.md" THEN MdBad(ns, RenderTbl(s, op), res)
   ELSE IF f = "out.all" THEN AllBad(res)
+  ELSE IF f = "res.faults" THEN FaultsBad(res)
   ELSE {}
 =============================================================================
